@@ -237,16 +237,20 @@ func monitor(gs []GFlow, t *Txn, orc Oracle) (hits []c.Hit, undetermined bool) {
 			return hits, free
 		}
 	}
+	// an error is only tolerated where the text is silent (the answering processor
+	// has no response node); the request part before it is still checked
+	onlyReq := false
 	if t.Result == "error" {
 		if !free {
 			add("unexpected-error:ExecuteFlow", "the transaction is handled", "error: "+t.ErrText)
+			return hits, free
 		}
-		return hits, free
+		onlyReq = true
 	}
 	// (1) per flow and direction: exactly the processors on the path, in order
 	for i := range runs {
 		r := &runs[i]
-		if r.Free {
+		if r.Free || (onlyReq && r.Dir != "req") {
 			continue
 		}
 		got := obs[fd{r.Flow, r.Dir}]
@@ -267,7 +271,7 @@ func monitor(gs []GFlow, t *Txn, orc Oracle) (hits []c.Hit, undetermined bool) {
 		}
 	}
 	for _, k := range order {
-		if _, ok := exp[k]; !ok {
+		if _, ok := exp[k]; !ok && !(onlyReq && k.d != "req") {
 			add("flow-not-selected-ran:"+k.d, fmt.Sprintf("flow %s does not run in direction %s", k.f, k.d), "ran "+evString(obs[k]))
 		}
 	}
@@ -275,7 +279,7 @@ func monitor(gs []GFlow, t *Txn, orc Oracle) (hits []c.Hit, undetermined bool) {
 	// user, end-system; system flows in selection order on requests and in
 	// reverse selection order on responses.  (The order among user flows is not
 	// fixed by the text.)
-	if len(hits) == 0 {
+	if len(hits) == 0 && !onlyReq {
 		pos := map[fd]int{}
 		for i := range runs {
 			pos[fd{runs[i].Flow, runs[i].Dir}] = i
@@ -315,7 +319,7 @@ func monitor(gs []GFlow, t *Txn, orc Oracle) (hits []c.Hit, undetermined bool) {
 		}
 	}
 	// (3) kind of the resulting action
-	if t.Dir == "req" && len(hits) == 0 {
+	if t.Dir == "req" && len(hits) == 0 && !onlyReq {
 		if answered && t.Result != "answered" {
 			add("result-kind", "the request is answered by the processor", "result "+t.Result)
 		}
